@@ -40,7 +40,7 @@ def T(*ks):
 
 RESERVED = set("""dot vzip vadd vsub vmul vscale vopp vzeros vones vsum mv vm transpose mm madd msub mscale outer mzeros unitv eye vget
 mget map fold_left length hd tl cons nil fst snd if then else let in match with end fun forall exists Type Prop Set nat list bool true
-false n0 n1 nadd nsub nmul ndiv nopp nltb nleb nofZ nabs mcols mT mmul vmm vdiv mdiv add_bias_row add_bias_mat andb orb negb F H
+false n0 n1 nadd nsub nmul ndiv nopp nltb nleb nofZ nabs mcols mT mmul vmm vdiv mdiv add_bias_row add_bias_mat roll1 set_row0 take_every vset_prefix vset_from gather_prod dq_appendleft dq_pop concat andb orb negb F H
 solve S O""".split())
 
 
@@ -99,6 +99,7 @@ class FnTr:
         self.fver = 0
         self.noise_i = 0
         self.used_draws = frozenset()
+        self.len_of = {}         # nat local -> the vector whose length it is
         self.tmp = 0
 
     # ------------------------------------------------------------------ helpers
@@ -112,7 +113,7 @@ class FnTr:
         if name not in self.fields:
             self.reads.add(name)
         k = spec[name]
-        return Val(k, "o_" + name, fresh=False, alias=name if name in self.u.get("buffers", []) else None)
+        return Val(k, "o_" + name, fresh=False, alias=name if (name in self.u.get("buffers", []) or k == ("DEQUE",)) else None)
 
     def rebound(self, name):
         self.fver += 1
@@ -261,6 +262,18 @@ class FnTr:
             return Val(M, "tl %s" % v.p(), False)
         if v.kind == M and txt == "0, :":
             return Val(V("flat"), "hd [] %s" % v.p(), False)
+        if v.kind == M and isinstance(sl, ast.Tuple) and len(sl.elts) == 2 and ast.unparse(sl.elts[1]) == ":" \
+                and isinstance(sl.elts[0], ast.Slice) and sl.elts[0].lower is None and sl.elts[0].upper is None and sl.elts[0].step is not None:
+            st = self.expr(sl.elts[0].step)
+            if st.kind == N:
+                return Val(M, "take_every %s %s" % (st.p(), v.p()), False)
+        if v.kind[0] == "V" and isinstance(sl, ast.Call) and isinstance(sl.func, ast.Attribute) and sl.func.attr == "astype" \
+                and [ast.unparse(a_) for a_ in sl.args] == ["int"] and not sl.keywords:
+            ix = self.expr(sl.func.value)
+            if ix.kind == ("IDX",):
+                return Val(("GATHER", v.p(), ix.p()), "")
+        if v.kind == ("SHAPE",) and txt == "0":
+            return Val(N, v.text)
         if v.kind == V("flat") and txt == "np.newaxis, :":
             return Val(V("row"), v.text, v.fresh, v.alias)
         if v.kind == ("SHAPE2",) and txt == "1":
@@ -287,6 +300,8 @@ class FnTr:
                 return Val(B, ("negb %s" % t) if isinstance(op, ast.Is) else t)
             return Val(B, "true" if (isnone == isinstance(op, ast.Is)) else "false")
         a, b = self.expr(e.left), self.expr(right)
+        if a.kind == N and isinstance(op, ast.Gt) and b.text == "n0":
+            return Val(B, "0 <? %s" % a.p())
         if a.kind == S and b.kind == S:
             if isinstance(op, ast.Gt):
                 return Val(B, "nltb %s %s" % (b.p(), a.p()))
@@ -327,6 +342,15 @@ class FnTr:
         if isinstance(f, ast.Attribute):
             v = self.expr(f.value)
             a = f.attr
+            if v.kind == ("DEQUE",) and v.alias is not None:
+                if a == "appendleft" and len(e.args) == 1 and not e.keywords:
+                    x = self.expr(e.args[0])
+                    if x.kind[0] != "V":
+                        raise Reject("%s: appendleft of kind %s" % (_where(e), x.kind))
+                    return Val(("DQ_APPEND", v.alias), "dq_appendleft %s %s %s" % (self.u["deque_maxlen"][v.alias] if self.u["deque_maxlen"][v.alias].isalnum() else "(" + self.u["deque_maxlen"][v.alias] + ")", v.p(), x.p()))
+                if a == "pop" and not e.args and not e.keywords:
+                    return Val(("DQ_POP", v.alias), "dq_pop %s" % v.p())
+                raise Reject("%s: deque method .%s" % (_where(e), a))
             if a == "reshape" and not e.keywords:
                 args = [ast.unparse(x) for x in e.args]
                 if v.kind[0] == "V" and args == ["-1", "1"]:
@@ -353,6 +377,11 @@ class FnTr:
             if v.kind == S:
                 return v
             raise Reject("%s: float() of kind %s" % (_where(e), v.kind))
+        if name == "len" and len(e.args) == 1 and not e.keywords:
+            v = self.expr(e.args[0])
+            if v.kind in (("LISTV",), M):
+                return Val(N, "length %s" % v.p())
+            raise Reject("%s: len() of kind %s" % (_where(e), v.kind))
         if name == "abs" and len(e.args) == 1 and not e.keywords:
             v = self.expr(e.args[0])
             if v.kind == S:
@@ -367,6 +396,8 @@ class FnTr:
             v = self.expr(e.args[0])
             if v.kind[0] in ("V", "M"):
                 return Val(B, "true")
+            if v.kind == ("LISTV",):
+                return Val(B, "false")
             raise Reject("%s: isinstance(%s, np.ndarray)" % (_where(e), v.kind))
         # ---- identity validators
         if name in self.u.get("identity_calls", []):
@@ -426,6 +457,8 @@ class FnTr:
             raise Reject("%s: linalg.%s" % (_where(e), a))
         if a in ("array", "asarray", "atleast_2d", "asanyarray") and len(args) == 1 and not e.keywords:
             v = self.expr(args[0])
+            if v.kind == ("LISTV",) and a == "asarray":
+                return Val(V("row"), "concat %s" % v.p(), True)       # reached for an empty list only: np.asarray([]) is empty
             if a == "atleast_2d" and v.kind == V("flat"):
                 return Val(V("row"), v.text, v.fresh, v.alias)
             if v.kind[0] in ("V", "M", "S"):
@@ -440,6 +473,31 @@ class FnTr:
             raise Reject("%s: np.outer of kinds %s, %s" % (_where(e), x.kind, y.kind))
         if a == "multiply" and len(args) == 2 and not e.keywords:
             return self.arith(ast.Mult, self.expr(args[0]), self.expr(args[1]), e)
+        if a == "roll" and len(args) == 2 and ast.unparse(args[1]) == "1":
+            kws = self.kw(e, {"axis"})
+            v = self.expr(args[0])
+            if v.kind == M and "axis" in kws and ast.unparse(kws["axis"]) == "0":
+                return Val(M, "roll1 %s" % v.p(), True)
+            raise Reject("%s: np.roll is accepted only as np.roll(<matrix>, 1, axis=0)" % _where(e))
+        if a == "ravel" and len(args) == 1 and not e.keywords:
+            v = self.expr(args[0])
+            if v.kind == M:
+                return Val(V("flat"), "concat %s" % v.p(), True)
+            if v.kind[0] == "V":
+                return Val(V("flat"), v.text, v.fresh, v.alias)
+            raise Reject("%s: np.ravel of kind %s" % (_where(e), v.kind))
+        if a == "prod" and len(args) == 1:
+            kws = self.kw(e, {"axis"})
+            v = self.expr(args[0])
+            if v.kind[0] == "GATHER" and "axis" in kws and ast.unparse(kws["axis"]) == "1":
+                return Val(V("col"), "gather_prod %s %s" % (v.kind[1], v.kind[2]), True)
+            raise Reject("%s: np.prod is accepted only as np.prod(<vector>[<index table>], axis=1)" % _where(e))
+        if a == "concatenate" and len(args) == 1:
+            kws = self.kw(e, {"axis"})
+            v = self.expr(args[0])
+            if v.kind == ("LISTV",) and "axis" in kws and self.expr(kws["axis"]).kind == OPQ:
+                return Val(V("row"), "concat %s" % v.p(), True)
+            raise Reject("%s: np.concatenate of kind %s" % (_where(e), v.kind))
         if a == "eye" and len(args) == 1:
             self.kw(e, {"dtype"})
             n = self.expr(args[0])
@@ -453,6 +511,10 @@ class FnTr:
                 n = self.expr(sh.elts[1])
                 if n.kind == N:
                     return Val(V("row"), "vzeros %s" % n.p(), True)
+            if isinstance(sh, ast.Tuple) and len(sh.elts) == 2 and ast.unparse(sh.elts[1]) == "1":
+                n = self.expr(sh.elts[0])
+                if n.kind == N:
+                    return Val(V("col"), "vzeros %s" % n.p(), True)
             v = self.expr(sh)
             if v.kind == N:
                 return Val(V("flat"), "vzeros %s" % v.p(), True)
@@ -526,7 +588,17 @@ class FnTr:
         if isinstance(s, ast.Assign):
             if len(s.targets) != 1:
                 raise Reject("%s: chained assignment" % _where(s))
-            return self.assign(s.targets[0], self.expr(s.value), s, lambda: self.block(rest, k))
+            tg = s.targets[0]
+            if isinstance(tg, ast.Subscript):
+                return self.subscript_assign(tg, self.expr(s.value), s, lambda: self.block(rest, k))
+            val = self.expr(s.value)
+            if val.kind[0] == "DQ_POP" and isinstance(tg, ast.Name):
+                fld = val.kind[1]
+                self.write_field(fld, Val(("DEQUE",), ""), s)
+                self.rebound(fld)
+                self.env[tg.id] = Val(V("row"), tg.id, True)
+                return "let '(%s, o_%s) := %s in\n  %s" % (tg.id, fld, val.text, self.block(rest, k))
+            return self.assign(tg, val, s, lambda: self.block(rest, k))
         if isinstance(s, ast.AugAssign):
             if not isinstance(s.target, ast.Name) or s.target.id not in self.env:
                 raise Reject("%s: augmented assignment to %s" % (_where(s), ast.unparse(s.target)))
@@ -553,6 +625,11 @@ class FnTr:
                 self.rebound(name)
                 return "let o_%s := %s in\n  %s" % (name, v.text, self.block(rest, k))
             v = self.expr(c)
+            if v.kind[0] == "DQ_APPEND":
+                fld = v.kind[1]
+                self.write_field(fld, Val(("DEQUE",), ""), s)
+                self.rebound(fld)
+                return "let o_%s := %s in\n  %s" % (fld, v.text, self.block(rest, k))
             if v.kind[0] == "EFFECT":
                 return self.assign(None, v, s, lambda: self.block(rest, k))
             raise Reject("%s: expression statement without effect: %s" % (_where(s), txt))
@@ -564,12 +641,48 @@ class FnTr:
             return self.ifstmt(s, rest, k)
         raise Reject("%s: statement %s is not accepted" % (_where(s), type(s).__name__))
 
+    def subscript_assign(self, tg, val, node, k):
+        """in-place writes into a FRESH local array: A[0] = row ; out[:n, :] = v ; out[n:, :] = v"""
+        if not isinstance(tg.value, ast.Name) or tg.value.id not in self.env:
+            raise Reject("%s: subscript assignment to %s" % (_where(node), ast.unparse(tg.value)))
+        name = tg.value.id
+        cur = self.env[name]
+        if not cur.fresh:
+            raise Reject("%s: in-place write into %r, which aliases another array" % (_where(node), name))
+        sl = tg.slice
+        txt = ast.unparse(sl)
+        if cur.kind == M and txt == "0" and val.kind[0] == "V":
+            new = "set_row0 %s %s" % (cur.p(), val.p())
+        elif cur.kind[0] == "V" and isinstance(sl, ast.Tuple) and len(sl.elts) == 2 and ast.unparse(sl.elts[1]) == ":" \
+                and isinstance(sl.elts[0], ast.Slice) and sl.elts[0].step is None and val.kind[0] == "V":
+            lo, up = sl.elts[0].lower, sl.elts[0].upper
+            if lo is None and up is not None:
+                n = self.expr(up)
+                if n.kind != N or n.text != "length %s" % val.p() and n.text != self.env.get(ast.unparse(up), Val(S, "")).text:
+                    raise Reject("%s: prefix write of a length other than the written vector's" % _where(node))
+                if self.len_of.get(ast.unparse(up)) != val.text:
+                    raise Reject("%s: out[:n] = v is accepted only when n was defined as v.shape[0]" % _where(node))
+                new = "vset_prefix %s %s" % (cur.p(), val.p())
+            elif up is None and lo is not None:
+                n = self.expr(lo)
+                if n.kind != N:
+                    raise Reject("%s: slice bound of kind %s" % (_where(node), n.kind))
+                new = "vset_from %s %s %s" % (cur.p(), n.p(), val.p())
+            else:
+                raise Reject("%s: slice assignment [%s]" % (_where(node), txt))
+        else:
+            raise Reject("%s: subscript assignment %s[%s] = <%s>" % (_where(node), name, txt, val.kind[0]))
+        self.env[name] = Val(cur.kind, name, True)
+        return "let %s := %s in\n  %s" % (name, new, k())
+
     def bind(self, name, val, k):
         if name in RESERVED or name.startswith("o_") or not name.replace("_", "a").isalnum():
             raise Reject("local variable name %r is not accepted" % name)
         if val.text == name or (val.text.replace("_", "a").isalnum() and not val.fresh and val.kind not in (S,)):
             self.env[name] = Val(val.kind, val.text, val.fresh, val.alias, val.items)       # a plain alias: no let needed
             return k()
+        if val.kind == N and val.text.startswith("length "):
+            self.len_of[name] = val.text[len("length "):]
         self.env[name] = Val(val.kind, name, val.fresh, val.alias, val.items)
         return "let %s := %s in\n  %s" % (name, val.text, k())
 
@@ -745,6 +858,10 @@ class FnTr:
                         and isinstance(n.args[0], ast.Constant):
                     if n.args[0].value not in out:
                         out.append(n.args[0].value)
+                if isinstance(n, ast.Call) and isinstance(n.func, ast.Attribute) and n.func.attr in ("appendleft", "pop") \
+                        and isinstance(n.func.value, ast.Attribute) and self.u["fields"].get(n.func.value.attr) == ("DEQUE",):
+                    if n.func.value.attr not in out:
+                        out.append(n.func.value.attr)
                 if isinstance(n, ast.AugAssign) and isinstance(n.target, ast.Name) and n.target.id in aliases:
                     if aliases[n.target.id] not in out:
                         out.append(aliases[n.target.id])
@@ -780,6 +897,10 @@ def coqtype(k):
         return "list F -> list F"
     if k == ("GEN",):
         return "F"
+    if k == ("IDX",):
+        return "list (list nat)"
+    if k in (("DEQUE",), ("LISTV",)):
+        return "list (list F)"
     if k == ("SOLVE",):
         return "list (list F) -> list (list F) -> list (list F)"
     raise Reject("no Coq type for kind %s" % (k,))
